@@ -695,3 +695,13 @@ Definition check_C06p := check_with mon_C06p.
 
 Definition mon_all_ext (sc : scenario) (c0 : cluster) (out : outcome) : list bool :=
   mon_all sc c0 out ++ [mon_C06p sc c0 out].
+
+(* ---- monitor-only checks (no model run) ---------------------------------------
+   For streams whose environment is outside the model (a RESTMapper that learns a custom
+   kind only when its CRD is in the cluster at the last reset: apply of a custom resource
+   whose CRD failed to apply ends in ApplyFailed(unknown type) before any filter runs).
+   The property monitors that only read the trace are evaluated on the implementation's
+   own trace; agreement with the model is not claimed for these cases. *)
+Definition check_C13_monly (h : history) : nat :=
+  let '(c0, runs) := h in
+  code true (forallb (fun x => mon_C13_core (out_trace (snd x)) && mon_C06p (fst x) c0 (snd x)) runs).
